@@ -36,7 +36,7 @@ META = {
     "design_ref": "DESIGN.md §3 C02",
     "engines": ["backends"],
 }
-REQUIRED = ("programs", "trials_judged", "propagated_exceptions", "tell_calls", "tell_on_finished", "callback_checks", "n_jobs_3_programs")
+REQUIRED = ("programs", "trials_judged", "propagated_exceptions", "tell_calls", "tell_on_finished", "callback_checks", "n_jobs_3_programs", "late_tells")
 SHARDS = {"quick": 12, "thorough": 16}
 WATCHDOG_S = {"quick": 900, "thorough": 3 * 3600}
 
@@ -164,6 +164,8 @@ def run_program(ctx: Ctx, rng, store, kind: str, pidx: int) -> None:
             v = (x for x in [1.0])  # a fresh generator each time
         return v
 
+    cb2_count: dict = {}
+
     def callback(st, ft):
         with lock:
             cb_count[ft.number] = cb_count.get(ft.number, 0) + 1
@@ -172,9 +174,14 @@ def run_program(ctx: Ctx, rng, store, kind: str, pidx: int) -> None:
         if ft.number in cb_raise:
             raise RuntimeError("callback boom")
 
+    def callback2(st, ft):
+        # a second, independent callback: it must also run exactly once per trial (unless the first one raised)
+        with lock:
+            cb2_count[ft.number] = cb2_count.get(ft.number, 0) + 1
+
     raised = None
     try:
-        study.optimize(objective, n_trials=n_trials, n_jobs=n_jobs, catch=catch, callbacks=[callback])
+        study.optimize(objective, n_trials=n_trials, n_jobs=n_jobs, catch=catch, callbacks=[callback, callback2])
     except BaseException as e:  # noqa: BLE001
         raised = e
     ctx.count("programs")
@@ -242,6 +249,12 @@ def run_program(ctx: Ctx, rng, store, kind: str, pidx: int) -> None:
             if got != want:
                 ctx.violation({**facts, "kind": "callback_count_wrong", "expected": want, "got": got, "objective_did": started[t.number][0]},
                               f"trial {t.number}: callbacks ran {got} times, expected {want}", case)
+            want2 = 0 if (t.number in propagating or t.number in cb_raise) else 1
+            got2 = cb2_count.get(t.number, 0)
+            if got2 != want2:
+                ctx.violation({**facts, "kind": "callback_count_wrong", "expected": want2, "got": got2, "objective_did": started[t.number][0], "which": "second_callback",
+                               "stop_requested_for_this_trial": t.number in cb_stop or started[t.number][0] == "stop_then_return"},
+                              f"trial {t.number}: the second callback ran {got2} times, expected {want2}", case)
         if raised is None and not stopped and not cb_stop & set(cb_count) and len(trials) != n_trials:
             ctx.violation({**facts, "kind": "wrong_number_of_trials"}, f"{len(trials)} trials ran, n_trials={n_trials}, nothing stopped the loop", case)
     else:
@@ -327,6 +340,56 @@ def run_tell_product(ctx: Ctx, rng, store, kind: str, idx: int) -> None:
                     del ret
 
 
+def run_late_tell(ctx: Ctx, rng, store, kind: str) -> None:
+    """Two workers tell the same trial: worker B's tell() has read the trial RUNNING when worker A finishes it (forced from B's
+    sampler.after_trial hook, i.e. between tell's check and its write).  B's tell must not alter the finished trial - as seen by
+    A, by B and by a fresh client."""
+    import optuna
+    from optuna.trial import TrialState as S
+
+    name = f"c02late-{ctx.shard[0]}"
+    A = optuna.create_study(storage=store.primary, study_name=name)
+    hookbox: dict = {}
+
+    class HookSampler(optuna.samplers.RandomSampler):
+        def after_trial(self, study, trial, state, values):
+            h = hookbox.pop("hook", None)
+            if h is not None:
+                h()
+
+    B = optuna.load_study(storage=store.client() if store.multi_client else store.primary, study_name=name, sampler=HookSampler(seed=1))
+    facts = {"backend_family": backends.family_of(kind), "via_grpc": kind.startswith("grpc:"), "n_objectives": 1}
+    for a_fin in (("COMPLETE", 1.0), ("FAIL", None), ("PRUNED", None)):
+        for b_tell in ({"values": 2.0}, {"state": S.FAIL}, {"state": S.PRUNED}, {"values": 3.0, "skip_if_finished": True}, {"state": S.COMPLETE, "values": 4.0}):
+            t = A.ask()
+            t.suggest_float("x", 0, 1)
+            num = t.number
+            B.get_trials(deepcopy=False)     # B knows the trial as RUNNING
+            hookbox["hook"] = (lambda: A.tell(num, a_fin[1], state=getattr(S, a_fin[0])))
+            try:
+                B.tell(num, **b_tell)
+                err = None
+            except Exception as e:  # noqa: BLE001
+                err = e
+            ctx.count("late_tells")
+            ctx.count("tell_on_finished")
+            case = {"backend": kind, "late_tell": {"first_worker_finished_it_as": a_fin[0], "second_worker_tells": {k: (v.name if hasattr(v, "name") else v) for k, v in b_tell.items()}}}
+            ctx.case(case, True)
+            if "hook" in hookbox:
+                hookbox.pop("hook")
+                ctx.count("late_tell_hook_not_reached")
+                continue
+            fresh = optuna.load_study(storage=store.client() if store.multi_client else store.primary, study_name=name)
+            for who, st in (("first worker", A), ("second worker", B), ("fresh client", fresh)):
+                got = st.get_trials(deepcopy=True)[num]
+                vals = None if got.values is None else [float(v) for v in got.values]
+                if got.state.name != a_fin[0] or vals != (None if a_fin[1] is None else [a_fin[1]]):
+                    ctx.violation({**facts, "kind": "tell_altered_finished_trial", "raised": err is not None, "finished_by_another_worker_during_tell": True},
+                                  f"{who} sees trial {num} as {got.state.name} {got.values} after a late tell({case['late_tell']['second_worker_tells']}) "
+                                  f"(which {'raised ' + type(err).__name__ if err else 'returned'}); the first worker had finished it as {a_fin[0]} {a_fin[1]}", case)
+                    break
+
+
 def run(ctx: Ctx) -> None:
     ctx.rule = ("seeded objective programs = per-trial plan (return catalogue value / raise class at a point / prune / stop) x catch tuple x n_jobs x "
                 "objectives x sampler-after_trial/callback faults x storage; tell(): product of 10 values x 6 states x 2 flags x 5 target kinds "
@@ -344,6 +407,7 @@ def run(ctx: Ctx) -> None:
             if ctx.out_of_time():
                 break
         run_tell_product(ctx, ctx.rng("tell", ctx.shard[0]), store, kind, 0)
+        run_late_tell(ctx, ctx.rng("late", ctx.shard[0]), store, kind)
     finally:
         store.close()
 
@@ -354,6 +418,9 @@ def replay(ctx: Ctx, w: dict) -> None:
     store = backends.Store(c["backend"])
     store.primary = store.client()
     try:
+        if "late_tell" in c:
+            run_late_tell(ctx, ctx.rng("late", 0), store, c["backend"])
+            return
         if "tell" in c:
             ctx.tier = "thorough"
             run_tell_product(ctx, ctx.rng("tell", 0), store, c["backend"], 1)
